@@ -24,7 +24,7 @@ A. luna.gateware.usb.usb3.link.idle.IdleHandshakeHandler
 
 B. luna.gateware.usb.usb3.link.timers.LinkMaintenanceTimers(ss_clock_frequency = k * 100 kHz), N = 10 us * f cycles,
    M = 1 ms * f cycles (exact integers for these f).  Mostly k in 10..40 (M = 1000..4000 cycles); some cases at 125 MHz with
-   only the keepalive timer reaching its limit; 15 % of the quick cases (5 % thorough) are a full 125 MHz case (M = 125000,
+   only the keepalive timer reaching its limit; 15 % of the quick cases (8 % thorough) are a full 125 MHz case (M = 125000,
    17-bit counter): a few early events, optionally a short drop of enable, then one silence of M+2..M+60 (60 %: the strobe must
    come), M / M+1 (15 %) or M-3..M-1 (25 %: it must not) cycles and nothing else.
    Workload: independent schedules for `link_command_transmitted`, for `link_command_received` / `packet_received` (one,
@@ -417,7 +417,7 @@ def _timer_schedule(rng, res, N, M, mode):
 def _run_timers(rng, res, tier):
     from luna.gateware.usb.usb3.link.timers import LinkMaintenanceTimers
     r = rng.random()
-    p_full = 0.15 if tier == "quick" else 0.05
+    p_full = 0.15 if tier == "quick" else 0.08
     if r < p_full:
         mode, k = "rec125", 1250
     elif r < p_full + 0.18:
